@@ -42,7 +42,7 @@ def _ns():
     global _NS
     if _NS is not None:
         return _NS
-    from pymtl3 import CalleeIfcCL, CallerIfcCL, Component, InPort, connect, non_blocking, update, update_once
+    from pymtl3 import CalleeIfcCL, CallerIfcCL, Component, InPort, U, connect, non_blocking, update, update_once
     from pymtl3.stdlib.ifcs import GetIfcFL, GiveIfcRTL, RecvIfcRTL, SendIfcFL, SendIfcRTL
     from pymtl3.stdlib.stream.ifcs import RecvIfcRTL as ValRecvIfcRTL
     from pymtl3.stdlib.stream.ifcs import SendIfcRTL as ValSendIfcRTL
@@ -65,6 +65,58 @@ def _ns():
                 if s.eo and s.r_rdy:
                     s.send(s.m)
                     s.r_x = True
+
+    class C17SrcCLSplit(Component):
+        """CL producer that samples send.rdy() in one block and calls send() in a LATER block (M(recv) only orders
+        blocks that call the method itself; the sampling block is ordered by M(recv.rdy) alone)."""
+
+        def construct(s, log):
+            s.send = CallerIfcCL()
+            s.eo = False
+            s.m = None
+            s.r_rdy = None
+            s.r_x = False
+
+            @update_once
+            def up_c17_src_p1():
+                log.append("p")
+                s.r_rdy = bool(s.send.rdy())
+
+            @update_once
+            def up_c17_src_p2():
+                log.append("P")
+                s.r_x = False
+                if s.eo and s.r_rdy:
+                    s.send(s.m)
+                    s.r_x = True
+
+            s.add_constraints(U(up_c17_src_p1) < U(up_c17_src_p2))
+
+    class C17GetterCLSplit(Component):
+        """CL consumer that samples get.rdy() in one block and calls get() in a later block."""
+
+        def construct(s, log):
+            s.get = CallerIfcCL()
+            s.do = False
+            s.r_rdy = None
+            s.r_x = False
+            s.r_msg = None
+
+            @update_once
+            def up_c17_get_c1():
+                log.append("c")
+                s.r_rdy = bool(s.get.rdy())
+
+            @update_once
+            def up_c17_get_c2():
+                log.append("C")
+                s.r_x = False
+                s.r_msg = None
+                if s.do and s.r_rdy:
+                    s.r_msg = s.get()
+                    s.r_x = True
+
+            s.add_constraints(U(up_c17_get_c1) < U(up_c17_get_c2))
 
     class C17SrcFL(Component):
         """FL producer: calls the blocking send() when it has an offer."""
@@ -316,6 +368,24 @@ def _ns():
                 connect(s.src.send, s.dut.enq)
                 connect(s.dut.send, s.snk.recv)
                 s.snk.rdy //= s.c_rdy
+            # ---------------- CL sides driven by callers that sample rdy() and call the method in different blocks
+            elif name == "split.ifcs.RecvCL2SendRTL":
+                s.src, s.dut, s.snk = C17SrcCLSplit(log), RecvCL2SendRTL(T), C17RecvStub(T)
+                connect(s.src.send, s.dut.recv)
+                connect(s.dut.send, s.snk.recv)
+                s.snk.rdy //= s.c_rdy
+            elif name == "split.stream.SendQueueAdapter":
+                from pymtl3.stdlib.stream.queue_adapters import SendQueueAdapter
+                s.src, s.dut, s.snk = C17SrcCLSplit(log), SendQueueAdapter(T), C17ValSink(T)
+                connect(s.src.send, s.dut.enq)
+                connect(s.dut.send, s.snk.recv)
+                s.snk.rdy //= s.c_rdy
+            elif name == "split.stream.RecvQueueAdapter":
+                from pymtl3.stdlib.stream.queue_adapters import RecvQueueAdapter
+                s.src, s.dut, s.snk = C17ValDrv(T), RecvQueueAdapter(T), C17GetterCLSplit(log)
+                rtl_src(s.src)
+                connect(s.src.send, s.dut.recv)
+                connect(s.dut.deq, s.snk.get)
             # ---------------- the connect hooks (ports of different levels connected directly)
             elif name == "hook.CallerIfcCL>RecvIfcRTL":
                 s.src, s.snk = C17SrcCL(log), C17RecvStub(T)
@@ -450,6 +520,9 @@ def catalogue():
         Entry("ifcs.RecvRTL2GiveFL", "rtl2fl", "RecvRTL2GiveFL", gg),
         Entry("stream.RecvQueueAdapter", "val2cl", "RecvQueueAdapter", qa),
         Entry("stream.SendQueueAdapter", "cl2val", "SendQueueAdapter", qa),
+        Entry("split.ifcs.RecvCL2SendRTL", "cl2rtl", "RecvCL2SendRTL", sr, "rdy() sampled and recv() called in different blocks"),
+        Entry("split.stream.SendQueueAdapter", "cl2val", "SendQueueAdapter", qa, "rdy() sampled and enq() called in different blocks"),
+        Entry("split.stream.RecvQueueAdapter", "val2cl", "RecvQueueAdapter", qa, "rdy() sampled and deq() called in different blocks"),
         Entry("hook.CallerIfcCL>RecvIfcRTL", "cl2rtl", "RecvCL2SendRTL", sr, "RecvIfcRTL.connect(CallerIfcCL)"),
         Entry("hook.CallerIfcCL>CalleeIfcCL=RecvIfcRTL", "cl2rtl", "RecvCL2SendRTL", sr,
               "RecvIfcRTL.connect(CalleeIfcCL of the parent)"),
@@ -513,15 +586,27 @@ def _i(v):
 class AdapterDut:
     """One design of C17Top behind the cycle interface."""
 
-    def __init__(self, name, cls=None):
+    def __init__(self, name, cls=None, sched=None):
+        """sched None: DefaultPassGroup (DynamicSchedulePass); an int k: SimpleSimPass under random.seed(k) (its
+        SimpleSchedulePass breaks ties with random.shuffle) -- another legal schedule of the same constraints."""
+        import random
         from pymtl3 import DefaultPassGroup, mk_bits
+        from pymtl3.passes.PassGroups import SimpleSimPass
         ns = _ns()
         self.name = name
         self.T = mk_bits(DATA_NBITS)
         top = ns["C17Top"](name, self.T)
         try:
             top.elaborate()
-            top.apply(DefaultPassGroup())
+            if sched is None:
+                top.apply(DefaultPassGroup())
+            else:
+                st = random.getstate()
+                random.seed("c17-adapter-sched-%d" % sched)
+                try:
+                    top.apply(SimpleSimPass())
+                finally:
+                    random.setstate(st)
         except MachineryError:
             raise
         except Exception as e:
@@ -529,12 +614,12 @@ class AdapterDut:
         self.top = top
         comps = list(top.get_all_components())
         self.comps = comps
-        self.src = next(c for c in comps if type(c).__name__ in ("C17SrcCL", "C17SrcFL", "C17DrvEnRdy",
+        self.src = next(c for c in comps if type(c).__name__ in ("C17SrcCL", "C17SrcCLSplit", "C17SrcFL", "C17DrvEnRdy",
                                                                  "C17GiveStub", "C17ValDrv"))
-        self.snk = next(c for c in comps if type(c).__name__ in ("C17SinkCL", "C17GetterCL", "C17GetterFL",
-                                                                 "C17RecvStub", "C17ValSink"))
-        self.skind = type(self.src).__name__
-        self.ckind = type(self.snk).__name__
+        self.snk = next(c for c in comps if type(c).__name__ in ("C17SinkCL", "C17GetterCL", "C17GetterCLSplit",
+                                                                 "C17GetterFL", "C17RecvStub", "C17ValSink"))
+        self.skind = type(self.src).__name__.replace("Split", "")      # the split callers expose the same fields
+        self.ckind = type(self.snk).__name__.replace("Split", "")
         self.ad = None
         if cls is not None:
             found = [c for c in comps if type(c).__name__ == cls]
@@ -621,6 +706,8 @@ class AdapterDut:
         if sk in ("C17SrcCL", "C17SrcFL"):
             if not pb0:
                 src.eo, src.m = bool(eo), (self.T(m) if eo else None)
+            if sk == "C17SrcCL":
+                src.r_rdy = None
             src.r_start = src.r_ret = False
             src.r_probe = None
         else:
@@ -629,6 +716,8 @@ class AdapterDut:
         if ck in ("C17SinkCL", "C17GetterCL", "C17GetterFL"):
             if not cb0:
                 snk.do = bool(do)
+            if ck == "C17GetterCL":
+                snk.r_rdy = None
             snk.r_start = snk.r_ret = False
         else:
             t.c_rdy @= 1 if do else 0
@@ -719,5 +808,5 @@ class AdapterDut:
         return obs
 
 
-def make(name, cls=None):
-    return AdapterDut(name, cls)
+def make(name, cls=None, sched=None):
+    return AdapterDut(name, cls, sched)
